@@ -1,10 +1,159 @@
 import Model.Common.Proto
-open Btc
+import Model.C11.Combine
+import Model.C11.Roles
+import Generated.Combine
+open Btc Btc.C11
 
-/-- line protocol of property C11: see harness/c11.py -/
-def handle : List String → String
-  -- one line per generated module this driver serves, e.g.
-  -- | "gen" :: "VarInt" :: fn :: args => (Gen.VarInt.dispatch fn args).getD "bad-op"
+/-! line protocol of property C11: see harness/c11.py
+
+psbt token:  `<version>;<nIn>;<nOut>;<entry>,<entry>,…`   entry `<g|i|o><idx>.<field>=<slot>`
+slot:        `N` | `i<int>` | `b<hex>` | `o<hex>` | `d<key>:<val>|<key>:<val>…`   (val: `i…`/`b…`/`o…`)
+-/
+
+def hexOf (b : Bytes) : String := if b.isEmpty then "" else toHex b
+def unhex? (s : String) : Option Bytes := if s.isEmpty then some [] else fromHex? s
+
+def parseVal? (s : String) : Option Val :=
+  match s.toList with
+  | 'i' :: r => (parseInt? (String.ofList r)).map .int
+  | 'b' :: r => (unhex? (String.ofList r)).map .bytes
+  | 'o' :: r => (unhex? (String.ofList r)).map .obj
+  | _ => none
+
+def renderVal : Val → String
+  | .int n => s!"i{n}"
+  | .bytes b => "b" ++ hexOf b
+  | .obj b => "o" ++ hexOf b
+
+def parseSlot? (s : String) : Option Slot :=
+  match s.toList with
+  | ['N'] => some (.scalar none)
+  | 'd' :: r =>
+    let body := String.ofList r
+    if body.isEmpty then some (.dict []) else
+    (body.splitOn "|").foldl (fun acc kv => do
+      let m ← acc
+      match kv.splitOn ":" with
+      | [k, v] => do
+        let k ← k.toNat?
+        let v ← parseVal? v
+        pure (dinsert k v m)
+      | _ => none) (some []) |>.map .dict
+  | _ => (parseVal? s).map fun v => .scalar (some v)
+
+def renderSlot : Slot → String
+  | .scalar none => "N"
+  | .scalar (some v) => renderVal v
+  | .dict m => "d" ++ "|".intercalate (m.map fun kv => s!"{kv.1}:{renderVal kv.2}")
+
+def parseLoc? (s : String) : Option Loc :=
+  match s.splitOn "." with
+  | [a, name] =>
+    match a.toList with
+    | c :: r => do
+      let idx ← (String.ofList r).toNat?
+      let sec ← (if c == 'g' then some Sec.glob else if c == 'i' then some Sec.inp else if c == 'o' then some Sec.out else none)
+      pure ⟨sec, idx, name⟩
+    | _ => none
+  | _ => none
+
+def parsePsbt? (s : String) : Option Psbt :=
+  match s.splitOn ";" with
+  | [v, ni, no, body] => do
+    let v ← v.toNat?
+    let ni ← ni.toNat?
+    let no ← no.toNat?
+    let entries ← (if body.isEmpty then some [] else
+      (body.splitOn ",").foldl (fun acc e => do
+        let m ← acc
+        match e.splitOn "=" with
+        | [l, sl] => do
+          let l ← parseLoc? l
+          let sl ← parseSlot? sl
+          pure ((l, sl) :: m)
+        | _ => none) (some ([] : List (Loc × Slot))))
+    pure ⟨v, ni, no, fun l => match entries.find? (fun e => e.1 == l) with
+      | some e => e.2
+      | none => .scalar none⟩
+  | _ => none
+
+def secChar : Sec → String
+  | .glob => "g" | .inp => "i" | .out => "o"
+
+def renderPsbt (p : Psbt) : String :=
+  let sect (s : Sec) (i : Nat) : List String :=
+    (fieldsOf s).map fun f => s!"{secChar s}{i}.{f.name}={renderSlot (p.slot ⟨s, i, f.name⟩)}"
+  let es := sect .glob 0 ++ (List.range p.nIn).flatMap (sect .inp) ++ (List.range p.nOut).flatMap (sect .out)
+  s!"{p.version};{p.nIn};{p.nOut};" ++ ",".intercalate es
+
+def renderErr : Err → String
+  | .value => "err value"
+  | .index => "err index"
+
+def renderRes : Except Err Psbt → String
+  | .ok p => "ok " ++ renderPsbt p
+  | .error e => renderErr e
+
+/-- `( a b ( c d ) )`: a parenthesised group is a nested `combine`. `none` on the stack is an open paren. -/
+def evalExpr (toks : List String) : Option (Except Err Psbt) :=
+  let popGroup (st : List (Option Psbt)) : Option (List Psbt × List (Option Psbt)) :=
+    let grp := st.takeWhile (·.isSome)
+    match st.drop grp.length with
+    | none :: rest => some ((grp.filterMap id).reverse, rest)
+    | _ => none
+  let r := toks.foldl (fun (acc : Option (Except Err (List (Option Psbt)))) tok =>
+    match acc with
+    | none => none
+    | some (.error e) => some (.error e)
+    | some (.ok st) =>
+      if tok == "(" then some (.ok (none :: st))
+      else if tok == ")" then
+        match popGroup st with
+        | none => none
+        | some (grp, rest) =>
+          match combine grp with
+          | .ok p => some (.ok (some p :: rest))
+          | .error e => some (.error e)
+      else match parsePsbt? tok with
+        | some p => some (.ok (some p :: st))
+        | none => none) (some (.ok []))
+  match r with
+  | some (.ok [some p]) => some (.ok p)
+  | some (.error e) => some (.error e)
+  | _ => none
+
+def renderUTx (u : UTx) : String :=
+  s!"ok ver={renderSlot u.txVersion} lock={u.lockTime} vin=" ++
+    ",".intercalate (u.vin.map fun x => s!"{renderSlot x.1}:{x.2.1}:{x.2.2}") ++ " vout=" ++
+    ",".intercalate (u.vout.map fun x => s!"{x.1}:{hexOf x.2}")
+
+def handle' : List String → String
+  | "gen" :: "Combine" :: fn :: args => (Gen.Combine.dispatch fn args).getD "bad-op"
+  | "combine" :: toks =>
+    match evalExpr toks with
+    | some r => renderRes r
+    | none => "bad-op"
+  | ["tx", p, forId] =>
+    match parsePsbt? p with
+    | some p => match unsignedTx p (forId == "1") with
+      | .ok u => renderUTx u
+      | .error e => renderErr e
+    | none => "bad-op"
+  | ["sigonly", a, b] =>
+    match parsePsbt? a, parsePsbt? b with
+    | some a, some b => if sigOnly a b then "ok" else "err value"
+    | _, _ => "bad-op"
+  | ["tov0", p] =>
+    match parsePsbt? p with
+    | some p => renderRes (toV0 p)
+    | none => "bad-op"
+  | ["tov2", p] =>
+    match parsePsbt? p with
+    | some p => renderRes (.ok (toV2 p))
+    | none => "bad-op"
   | _ => "bad-op"
+
+/-- a trailing `#…` token is the harness's replay payload: not the model's business -/
+def handle (toks : List String) : String := handle' (toks.filter fun t => !t.startsWith "#")
 
 def main : IO Unit := runLoop handle
